@@ -324,6 +324,20 @@ func eachDERMutant(seed []byte, fn func(desc string, m []byte)) int {
 			raw("len=indef", []byte{0x80}, oldLB)
 			raw("len=huge", []byte{0x84, 0x7f, 0xff, 0xff, 0xff}, oldLB)
 			raw("len=huge8", []byte{0x88, 0xff, 0xff, 0xff, 0xff, 0xff, 0xff, 0xff, 0xff}, oldLB)
+			// the length as an integer at the widths and signs a reader may accumulate it in: 2^31 and 2^32-1 (negative as
+			// int32), 2^63 and 2^63-1, 2^32 and 2^64 (truncate to 0), and 2^32+len / 2^64+len (truncate to the true length:
+			// a reader without an overflow check takes a non-canonical encoding for the original)
+			l4 := []byte{byte(n.Len >> 24), byte(n.Len >> 16), byte(n.Len >> 8), byte(n.Len)}
+			raw("len=2^31", []byte{0x84, 0x80, 0, 0, 0}, oldLB)
+			raw("len=2^32-1", []byte{0x84, 0xff, 0xff, 0xff, 0xff}, oldLB)
+			raw("len=2^32", []byte{0x85, 1, 0, 0, 0, 0}, oldLB)
+			raw("len=2^32+len", append([]byte{0x85, 1}, l4...), oldLB)
+			raw("len=2^63-1", []byte{0x88, 0x7f, 0xff, 0xff, 0xff, 0xff, 0xff, 0xff, 0xff}, oldLB)
+			raw("len=2^63", []byte{0x88, 0x80, 0, 0, 0, 0, 0, 0, 0}, oldLB)
+			raw("len=2^63+len", append([]byte{0x88, 0x80, 0, 0, 0}, l4...), oldLB)
+			raw("len=2^64", []byte{0x89, 1, 0, 0, 0, 0, 0, 0, 0, 0}, oldLB)
+			raw("len=2^64+len", append([]byte{0x89, 1, 0, 0, 0, 0}, l4...), oldLB)
+			raw("len=-len", []byte{0x88, 0xff, 0xff, 0xff, 0xff, ^l4[0], ^l4[1], ^l4[2], ^l4[3] + 1}, oldLB)
 			if n.Len < 0x80 {
 				raw("len=nonminimal", []byte{0x81, byte(n.Len)}, oldLB)
 			} else if n.Len < 0x100 {
